@@ -309,11 +309,13 @@ def run(rep, tier, rng):
     sel_exprs, sel_meta = [], []
     existing_sets = [[], [[2, 0, 0]], [[2, 0, 0], [0, 2, 0]]]
     patterns = [[[5, 0, 0], [0, 5, 0], [0, 0, 5]], [[0, 0, 5], [5, 0, 0], [0, 5, 0]], [[3, 0, 0], [2, 1, 0], [1, 0, 4], [0, 0, 1]],
-                [[4, 0, 0], [3, 0, 1], [3, 1, 0], [2, 0, 0]], [[1, 1, 0], [1, 0, 1], [1, 1, 1]], [[2, 2, 0], [2, 0, 2], [2, 1, 3]]]
+                [[4, 0, 0], [3, 0, 1], [3, 1, 0], [2, 0, 0]], [[1, 1, 0], [1, 0, 1], [1, 1, 1]], [[2, 2, 0], [2, 0, 2], [2, 1, 3]],
+                # negative similarities: anti-correlated candidates are dissimilar, not similar
+                [[-5, 0, 0], [0, 0, 5]], [[-3, 1, 0], [2, -1, 0], [0, 0, 1]], [[-1, -4, 0], [-4, -1, 0], [1, 1, 1]], [[-2, 3, 1], [3, -2, 0], [-1, -1, -1]]]
     for ex in existing_sets:
         for pat in patterns:
             for attempts in range(0, 7):
-                for bound in (1, 2, 4, 6, 100):
+                for bound in (1, 2, 4, 6, 100, 0, -3):
                     cands = (pat * 3)[:max(attempts, 1) + 2]
                     pv = spa.Vocabulary(d, pointer_gen=iter([algs.fl(v) for v in cands]), max_similarity=float(bound))
                     for i, v in enumerate(ex):
@@ -343,6 +345,38 @@ def run(rep, tier, rng):
                              sample={"existing": ex, "candidates": cands[:attempts], "max_similarity": bound, "chosen": chosen, "warned": warned}
                              if attempts == 3 and len(ex) == 1 and bound == 4 else None)
                     rep.count("create_pointer")
+
+    # ---- populate 'Name.method()': the similarity test sees the transformed candidate -----------------------------
+    # HRR linv / rinv is the involution (entries permuted), so transformed candidates stay integral.
+    inv4 = lambda v: [v[0], v[3], v[2], v[1]]  # noqa
+    streams = [[[0, 0, 0, 4], [3, 0, 0, 0]],            # raw dissimilar, involuted similar: must be skipped
+               [[0, 4, 0, 0], [3, 0, 0, 0]],            # raw similar, involuted dissimilar: must be taken
+               [[0, 2, 0, 3], [0, 3, 0, 2], [1, 0, 1, 0]],
+               [[2, 0, 0, 0], [0, 0, 3, 0]]]
+    for meth in ("linv", "rinv"):
+        for st in streams:
+            for bound in (1, 5, 12):
+                pv = spa.Vocabulary(4, pointer_gen=iter([algs.fl(v) for v in st * 3]), max_similarity=float(bound))
+                pv.add("A", algs.fl([0, 5, 0, 0]))
+                with warnings.catch_warnings(record=True) as rec:
+                    warnings.simplefilter("always")
+                    o = c.outcome(lambda: pv.populate(f"B.{meth}()"))
+                warned = any("Could not create" in str(w.message) for w in rec)
+                tc = [inv4(v) for v in (st * 3)]
+                used = tc[:100]
+                if o[0] == "ok" and "B" in pv:
+                    idx = next((i for i, v in enumerate(used) if np.array_equal(algs.fl(v), pv["B"].v)), None)
+                    chosen = f"(Some {idx})" if idx is not None else "(Some 4999)"
+                else:
+                    chosen = "None"
+                # create_pointer's default attempts is 100: the stream (3 rounds) is shorter, exhaustion raises StopIteration
+                n_avail = len(tc)
+                sel_exprs.append(f"check_create_pointer {c.lst([c.zlist([0, 5, 0, 0])])} {c.z(bound)} {c.lst([c.zlist(v) for v in tc])} {chosen} {c.b(warned)}"
+                                 if chosen != "None" else "true")
+                sel_meta.append({"existing": [[0, 5, 0, 0]], "candidates": st, "attempts": f"populate('B.{meth}()')", "bound": bound,
+                                 "chosen": chosen, "warned": warned, "error": None if o[0] == "ok" else o[0]})
+                rep.case(("populate-method-selection", meth, tuple(map(tuple, st)), bound))
+                rep.count("populate-method-selection")
 
     verdicts = c.coq_eval("C10", "cases", IMPORTS, exprs, shard=150)
     reps = c.coq_eval("C10", "repr", IMPORTS, rexprs, shard=300)
